@@ -111,8 +111,9 @@ package server
 // the eight entries of requestHandlers return the CDCService result: a non-nil response exactly when there is no error
 //@   dyncall results 2 ensures result1 == nil ==> result0 != nil
 //@   dyncall results 2 ensures isResponseValue(result0)
-// generateModel returns a new request model of the handler's type, never the envelope
-//@   dyncall results 1 ensures !isType(result0, "*request.CDCRequest") && !isType(result0, "request.CDCRequest")
+// generateModel returns a pointer to a new request model of the handler's type (the eight entries of requestHandlers):
+// never the envelope, never a by-value create request, never a stored task record or a connect parameter
+//@   dyncall results 1 ensures !isType(result0, "*request.CDCRequest") && !isType(result0, "request.CDCRequest") && !isType(result0, "request.CreateRequest") && !isType(result0, "meta.TaskInfo") && !isType(result0, "*meta.TaskInfo") && !isType(result0, "model.MilvusConnectParam") && !isType(result0, "model.KafkaConnectParam")
 //@   ensures [no-response-value-means-one-error-document] result == nil ==> respCount == old(respCount) + 1 && (lastRespCode == 400 || lastRespCode == 500)
 //@   ensures [a-response-value-means-nothing-written-yet] result != nil ==> respCount == old(respCount)
 //@   ensures [the-result-is-a-response-value] isResponseValue(result)
@@ -140,6 +141,9 @@ package server
 //@ func GetRequestInfo
 //@   props C18 C19
 //@   requires [the-raw-request-envelope-is-never-logged] !isType(request, "*request.CDCRequest") && !isType(request, "request.CDCRequest")
+// only a create request passed by pointer is recognised and masked: a by-value create request or a task record would
+// be marshalled with its credentials
+//@   requires [credential-bearing-values-are-logged-only-in-their-maskable-form] !isType(request, "request.CreateRequest") && !isType(request, "meta.TaskInfo") && !isType(request, "*meta.TaskInfo") && !isType(request, "model.MilvusConnectParam") && !isType(request, "model.KafkaConnectParam")
 //@   ensures [create-requests-are-logged-masked] isType(lastMarshalled, "*request.CreateRequest") ==> maskedReq(cast(lastMarshalled, "*request.CreateRequest"))
 //@   ensures [the-callers-request-is-not-modified] isType(request, "*request.CreateRequest") ==> cast(request, "*request.CreateRequest").MilvusConnectParam == old(cast(request, "*request.CreateRequest").MilvusConnectParam)
 //@   modifies lastMarshalled, fresh(request.CreateRequest.*)
